@@ -20,7 +20,7 @@ echo "| change | property | exit | first reported failure |"
 echo "|---|---|---|---|"
 } > $OUT
 run() { # name patch prop
-  git -C $REPO apply "$2" 2>/dev/null || { echo "| $1 | $3 | n/a | patch does not apply to the current tree (written against an earlier HEAD; see its meta.json for the verdict at that time) |" >> $OUT; return; }
+  git -C $REPO apply "$2" 2>/dev/null || { git -C $REPO apply -3 "$2" >/dev/null 2>&1 && git -C $REPO reset -q; } || { git -C $REPO reset -q --hard; echo "| $1 | $3 | n/a | patch does not apply to the current tree (written against an earlier HEAD; see its meta.json for the verdict at that time) |" >> $OUT; return; }
   o=$($VROOT/check $3 $TIER 2>&1); c=$?
   git -C $REPO checkout -- .
   sig=$(echo "$o" | grep -E '^violation:' | head -1 | cut -c12-150 | tr '|' '/' )
